@@ -338,7 +338,7 @@ func (w *walk) submit(raw []byte, kind string) bool {
 	w.focus = n
 	tip0 := e.k.Ch.LastBlock()
 	r.pending(pendingDoc{Kind: "branch-walk:" + kind, Opts: e.opts, Candidate: hex.EncodeToString(raw), Vouched: w.vouchedIDs(), Walk: true})
-	res := e.k.Submit(raw)
+	res := e.submit(raw)
 	tip1 := e.k.Ch.LastBlock()
 	e.nblocks++
 	verdict := "valid"
@@ -438,14 +438,24 @@ func (w *walk) run(steps int) {
 }
 
 func walkOpts(ep int) epOpts {
-	return epOpts{Pool: ep%2 == 1, Compress: ep%3 == 2, NoSegWit: ep%5 == 4}
+	o := epOpts{Pool: ep%2 == 1, Compress: ep%3 == 2, NoSegWit: ep%5 == 4}
+	switch { // alloc.go: undoing a block merges and releases records
+	case ep%3 == 0:
+		o.Alloc = "poison"
+	case ep%6 == 5:
+		o.Alloc = "client"
+	}
+	if ep%3 == 1 {
+		o.Entry = "cache" // entry.go
+	}
+	return o
 }
 
 func runWalkEpisodes(r *Run, o *vlib.Oracle) {
 	nEp := r.N(6, 60)
 	for ep := 0; ep < nEp; ep++ {
 		g := r.Rng.Fork()
-		if walkOpts(ep).Compress {
+		if inChild(walkOpts(ep)) {
 			runChild(r, childSpec{Mode: "walk", Ep: ep, Sub: g.U64()}) // child.go
 			continue
 		}
@@ -465,6 +475,7 @@ func runWalkEpisode(r *Run, o *vlib.Oracle, ep int, g *vlib.Rng) {
 		e.dead = true // the Lean oracle does not follow the walk
 		w.run(steps)
 		r.Hit(fmt.Sprintf("walk-episodes(pool=%v,compress=%v)", opts.Pool, opts.Compress))
+		r.Hit(fmt.Sprintf("walk-episodes(entry=%q,alloc=%q)", opts.Entry, opts.Alloc))
 		r.Hit("walk:reorganisations-per-episode=" + cntBig(w.reorgs))
 	}
 	e.close()
